@@ -232,7 +232,7 @@ PROPS = {
     "C07": {
         "level": "proof",
         "lean_modules": ["SqlizeModel.Props.C07", "SqlizeModel.Props.TieElement", "SqlizeModel.Props.TieApiHash"],
-        "theorems": ["Sqlize.C07.empty_is_zero", "Sqlize.C07.column_order_irrelevant", "Sqlize.C07.same_tables_same_value", "Sqlize.C07.case_option_irrelevant", "Sqlize.sortStrs_perm", "Sqlize.C07.value_is_a_function_of_the_schema", "Sqlize.C07.same_schema_same_value_from_scripts", "Sqlize.hash_of_schema", "Sqlize.Table.hashWith_spec", "Sqlize.Index.hashInput_live", "Sqlize.Tie.element_skeleton_as_modelled", "Sqlize.Tie.api_hash_skeleton_as_modelled"],
+        "theorems": ["Sqlize.C07.different_schema_different_value", "Sqlize.C07.different_schema_different_value_from_scripts", "Sqlize.hashOf_inj", "Sqlize.tableHashOf_inj", "Sqlize.intercalate_inj", "Sqlize.C07.empty_is_zero", "Sqlize.C07.column_order_irrelevant", "Sqlize.C07.same_tables_same_value", "Sqlize.C07.case_option_irrelevant", "Sqlize.sortStrs_perm", "Sqlize.C07.value_is_a_function_of_the_schema", "Sqlize.C07.same_schema_same_value_from_scripts", "Sqlize.hash_of_schema", "Sqlize.Table.hashWith_spec", "Sqlize.Index.hashInput_live", "Sqlize.Tie.element_skeleton_as_modelled", "Sqlize.Tie.api_hash_skeleton_as_modelled"],
         "suites": [{"name": "hash", "repeat_processes": 1, "repeat_processes_thorough": 5}, {"name": "script"}],
         "corr_points": None,
         "rule": "hash suite: random schemas (1..4 tables with indexes) x presentations {canonical, one statement per call, alias spelling + keyword "
@@ -247,7 +247,7 @@ PROPS = {
                        "tables; and from scripts (value_is_a_function_of_the_schema): for every script the reference engine accepts (element-safe vocabulary, no inline PRIMARY KEY, MySQL reader model) "
                        "the value of the loaded model is DB.hashOf of the reference schema - per table, in table order, the columns' names and types, the primary key and the indexes, nothing else - so two scripts "
                        "describing such schemas have the same value whatever the route (same_schema_same_value_from_scripts). The converse (different schema, different value) is decided per edit; "
-                       "tied by exact value correspondence (md5 in Lean) on every presentation and edit.",
+                       "tied by exact value correspondence (md5 in Lean) on every presentation and edit. The other direction (different_schema_different_value, Proofs/HashInj) under an explicit collision-freeness hypothesis on the finitely many pre-images involved: equal values force the same number of tables and, table by table in order, the same multisets of column pre-images (escaped name + type) and of key / index pre-images.",
     },
 
     "C08": {
